@@ -1,3 +1,4 @@
+import CbiVerif.Props.C05Table
 import CbiVerif.Lemmas.CLexHash
 /-!
 # C05 — a physical line is counted iff it holds code outside comments
